@@ -14,7 +14,16 @@ witness that the check replays against the real `wa test`:
 * the expected-panic comparison is a prefix match (`witnessPrefix`),
 * a declaration with no text is stored as the sentinel `?` (`witnessEmptyMeets`, `witnessSentinel`),
 * a failing function without expected panic exits early without the `FAIL` line (`witnessAbort`,
-  only when the regenerated `cfg` says the early-exit blocks do not print it).
+  only when the regenerated `cfg` says the early-exit blocks do not print it) — repaired in /repo.
+
+Module state: the theorems quantify over lists of functions whose behaviour is already resolved
+(`Fn`, with the flag `fresh` = first function on a fresh module instance); `resolved pkg l` computes
+that list from the functions as written (`SFn`: global counter bumped / printed) by threading the
+counter and the reloads, and `suite_*` restate the theorems for `run cfg (.fns pkg l)`.  Output
+printed during package initialisation belongs to no function: if `RunFunc` lets it leak into the
+first function's stdout (`cfg.initOutputLeaks`), a suite that meets every contract is reported
+FAIL (`init_output_leak_fails`); `guarded_statement_iff_sound` shows the guarded statement holds
+exactly when the early exits print FAIL and init output does not leak.
 
 The `_partial` theorems prove both sentences for every suite whose selected functions avoid the
 first two causes (`Guarded`); the FAIL sentence additionally needs the early exits to print FAIL,
@@ -23,175 +32,224 @@ which is exactly the parameter regenerated from the source (`guarded_fail_statem
 namespace WaVerif.C30
 
 def PassIffStatement (cfg : Cfg) : Prop :=
-  ∀ l : List Fn, (∀ f ∈ l, f.selected = true → WF f = true) →
-    ((Line.ok ∈ (run cfg (.fns l)).1 ∧ (run cfg (.fns l)).2 = 0) ↔ allMeet l)
+  ∀ (io : Text) (l : List Fn), (∀ f ∈ l, f.selected = true → WF f = true) →
+    ((Line.ok ∈ (runList cfg io l).1 ∧ (runList cfg io l).2 = 0) ↔ allMeet l)
 
 def FailStatement (cfg : Cfg) : Prop :=
-  ∀ l : List Fn, (∀ f ∈ l, f.selected = true → WF f = true) → ¬ allMeet l →
-    (Line.fail ∈ (run cfg (.fns l)).1 ∧ (run cfg (.fns l)).2 ≠ 0)
+  ∀ (io : Text) (l : List Fn), (∀ f ∈ l, f.selected = true → WF f = true) → ¬ allMeet l →
+    (Line.fail ∈ (runList cfg io l).1 ∧ (runList cfg io l).2 ≠ 0)
 
-/-- the FAIL sentence restricted to suites that avoid the prefix-match and sentinel causes -/
-def GuardedFailStatement (cfg : Cfg) : Prop :=
-  ∀ l : List Fn, (∀ f ∈ l, f.selected = true → Guarded f = true) → ¬ allMeet l →
-    (Line.fail ∈ (run cfg (.fns l)).1 ∧ (run cfg (.fns l)).2 ≠ 0)
+/-- both sentences restricted to suites that avoid the prefix-match and sentinel causes; any
+package initialisation output `io`, any placement of the `fresh` flags -/
+def GuardedStatement (cfg : Cfg) : Prop :=
+  ∀ (io : Text) (l : List Fn), (∀ f ∈ l, f.selected = true → Guarded f = true) →
+    (((Line.ok ∈ (runList cfg io l).1 ∧ (runList cfg io l).2 = 0) ↔ allMeet l) ∧
+     (¬ allMeet l → (Line.fail ∈ (runList cfg io l).1 ∧ (runList cfg io l).2 ≠ 0)))
 
-/-! ## what holds: the `_partial` theorems (any `cfg`) -/
+def CfgSound (cfg : Cfg) : Bool := cfg.testAbortFAIL && cfg.exampleAbortFAIL && !cfg.initOutputLeaks
 
-theorem allPass_iff_allMeet (cfg : Cfg) (l : List Fn) (hg : ∀ f ∈ l, f.selected = true → Guarded f = true) :
-    (∀ f ∈ ordered l, f.selected = true → (runFn cfg f).2 = .pass) ↔ allMeet l := by
+/-- init output cannot reach any function's captured stdout -/
+def NoLeak (cfg : Cfg) (io : Text) : Prop := cfg.initOutputLeaks = false ∨ io = []
+
+/-! ## what holds: the `_partial` theorems -/
+
+theorem allPass_iff_allMeet (cfg : Cfg) (io : Text) (l : List Fn)
+    (hg : ∀ f ∈ l, f.selected = true → Guarded f = true) (hl : NoLeak cfg io) :
+    (∀ f ∈ l, f.selected = true → (runFn cfg io f).2 = .pass) ↔ allMeet l := by
+  have hl' : ∀ f : Fn, cfg.initOutputLeaks = false ∨ io = [] ∨ f.fresh = false := by
+    intro f; rcases hl with h | h
+    · exact Or.inl h
+    · exact Or.inr (Or.inl h)
   constructor
   · intro h f hf hs
-    exact (runFn_pass_iff_meets cfg f (hg f hf hs)).1 (h f ((mem_ordered l f).2 hf) hs)
+    exact (runFn_pass_iff_meets cfg io f (hg f hf hs) (hl' f)).1 (h f hf hs)
   · intro h f hf hs
-    have hf' := (mem_ordered l f).1 hf
-    exact (runFn_pass_iff_meets cfg f (hg f hf' hs)).2 (h f hf' hs)
+    exact (runFn_pass_iff_meets cfg io f (hg f hf hs) (hl' f)).2 (h f hf hs)
 
 /-- `ok` and status 0 exactly when every selected function meets its contract -/
-theorem pass_iff_all_meet_contract_partial (cfg : Cfg) (l : List Fn)
-    (hg : ∀ f ∈ l, f.selected = true → Guarded f = true) :
-    (Line.ok ∈ (run cfg (.fns l)).1 ∧ (run cfg (.fns l)).2 = 0) ↔ allMeet l := by
-  simp only [run]
+theorem pass_iff_all_meet_contract_partial (cfg : Cfg) (io : Text) (l : List Fn)
+    (hg : ∀ f ∈ l, f.selected = true → Guarded f = true) (hl : NoLeak cfg io) :
+    (Line.ok ∈ (runList cfg io l).1 ∧ (runList cfg io l).2 = 0) ↔ allMeet l := by
+  simp only [runList]
   rw [runAll_ok_iff, runAll_status_zero_iff]
   simp only [true_and, and_self]
-  exact allPass_iff_allMeet cfg l hg
+  exact allPass_iff_allMeet cfg io l hg hl
 
-/-- each half separately: the printed verdict and the status agree with each other -/
-theorem ok_iff_status_zero (cfg : Cfg) (l : List Fn) :
-    Line.ok ∈ (run cfg (.fns l)).1 ↔ (run cfg (.fns l)).2 = 0 := by
-  simp only [run]
+/-- the printed verdict and the status always agree with each other -/
+theorem ok_iff_status_zero (cfg : Cfg) (io : Text) (l : List Fn) :
+    Line.ok ∈ (runList cfg io l).1 ↔ (runList cfg io l).2 = 0 := by
+  simp only [runList]
   rw [runAll_ok_iff, runAll_status_zero_iff]
 
 /-- a failing function always makes the status non-zero -/
-theorem fail_nonzero_partial (cfg : Cfg) (l : List Fn)
-    (hg : ∀ f ∈ l, f.selected = true → Guarded f = true) (hn : ¬ allMeet l) :
-    (run cfg (.fns l)).2 ≠ 0 := by
+theorem fail_nonzero_partial (cfg : Cfg) (io : Text) (l : List Fn)
+    (hg : ∀ f ∈ l, f.selected = true → Guarded f = true) (hl : NoLeak cfg io) (hn : ¬ allMeet l) :
+    (runList cfg io l).2 ≠ 0 := by
   intro h0
   apply hn
-  have := (runAll_status_zero_iff cfg (ordered l) false).1 (by simpa [run] using h0)
-  exact (allPass_iff_allMeet cfg l hg).1 this.2
+  have := (runAll_status_zero_iff cfg io l false).1 (by simpa [runList] using h0)
+  exact (allPass_iff_allMeet cfg io l hg hl).1 this.2
 
 /-- … and FAIL is printed, provided the early exits that are taken print it -/
-theorem fail_prints_FAIL_and_nonzero_partial (cfg : Cfg) (l : List Fn)
-    (hg : ∀ f ∈ l, f.selected = true → Guarded f = true)
+theorem fail_prints_FAIL_and_nonzero_partial (cfg : Cfg) (io : Text) (l : List Fn)
+    (hg : ∀ f ∈ l, f.selected = true → Guarded f = true) (hl : NoLeak cfg io)
     (ha : ∀ f ∈ l, f.selected = true → Aborts f = true → abortFAIL cfg f = true)
     (hn : ¬ allMeet l) :
-    Line.fail ∈ (run cfg (.fns l)).1 ∧ (run cfg (.fns l)).2 ≠ 0 := by
-  refine ⟨?_, fail_nonzero_partial cfg l hg hn⟩
-  simp only [run]
-  apply runAll_fail_mem cfg (ordered l) false
-  · intro f hf; exact ha f ((mem_ordered l f).1 hf)
-  · right
-    have : ¬ ∀ f ∈ ordered l, f.selected = true → (runFn cfg f).2 = .pass :=
-      fun h => hn ((allPass_iff_allMeet cfg l hg).1 h)
-    simpa using this
+    Line.fail ∈ (runList cfg io l).1 ∧ (runList cfg io l).2 ≠ 0 := by
+  refine ⟨?_, fail_nonzero_partial cfg io l hg hl hn⟩
+  simp only [runList]
+  apply runAll_fail_mem cfg io l false ha
+  right
+  have : ¬ ∀ f ∈ l, f.selected = true → (runFn cfg io f).2 = .pass :=
+    fun h => hn ((allPass_iff_allMeet cfg io l hg hl).1 h)
+  simpa using this
 
 -- the hypotheses are satisfiable by a non-trivial suite (a failing assert next to a passing example)
 def exampleSuite : List Fn :=
-  [⟨['T', 'e', 's', 't', 'A'], false, true, .none, ⟨[], .assertFails ['x'] ['a', ':', '1']⟩⟩,
-   ⟨['E', 'x', 'a', 'm', 'p', 'l', 'e', 'B'], true, true, .output ['3'], ⟨['3'], .returns⟩⟩]
+  [⟨['T', 'e', 's', 't', 'A'], false, true, .none, ⟨[], .assertFails ['x'] ['a', ':', '1']⟩, true⟩,
+   ⟨['E', 'x', 'a', 'm', 'p', 'l', 'e', 'B'], true, true, .output ['3'], ⟨['3'], .returns⟩, false⟩]
 
 example : (∀ f ∈ exampleSuite, f.selected = true → Guarded f = true) ∧ ¬ allMeet exampleSuite ∧
-    (∀ f ∈ exampleSuite, f.selected = true → Aborts f = true → abortFAIL cfgRepaired f = true) := by decide
+    (∀ f ∈ exampleSuite, f.selected = true → Aborts f = true → abortFAIL cfgRepaired f = true) ∧
+    NoLeak cfgRepaired ['i', 'n', 'i', 't'] := by
+  refine ⟨by decide, by decide, by decide, Or.inl rfl⟩
 
-/-- the guarded FAIL sentence holds for a table iff both early-exit blocks print FAIL -/
-theorem guarded_fail_statement_iff (cfg : Cfg) :
-    GuardedFailStatement cfg ↔ (cfg.testAbortFAIL = true ∧ cfg.exampleAbortFAIL = true) := by
+/-! ## init output belongs to no function -/
+
+/-- an example that prints `1` and declares `1`, first on a fresh instance of a package whose
+initialisation prints `x` -/
+def witnessInitLeak : List Fn :=
+  [⟨['E', 'x', 'a', 'm', 'p', 'l', 'e', 'L'], true, true, .output ['1'], ⟨['1'], .returns⟩, true⟩]
+
+/-- if the buffers are not reset after instantiation, the suite meets every contract and FAILs -/
+theorem init_output_leak_fails (a b : Bool) :
+    (runList ⟨a, b, true⟩ ['x'] witnessInitLeak).2 = 1 ∧
+    Line.fail ∈ (runList ⟨a, b, true⟩ ['x'] witnessInitLeak).1 ∧ allMeet witnessInitLeak := by
+  cases a <;> cases b <;> decide
+
+/-- with the reset in place the same suite passes whatever the package prints during init -/
+theorem init_output_not_attributed (cfg : Cfg) (h : cfg.initOutputLeaks = false) (io : Text) :
+    runList cfg io witnessInitLeak = ([.ok], 0) := by
+  simp [runList, witnessInitLeak, runAll, runFn, runFnCore, captured, h, declInfo, obs]
+
+/-- the guarded statement holds for a table iff both early-exit blocks print FAIL and init output
+does not leak -/
+theorem guarded_statement_iff_sound (cfg : Cfg) : GuardedStatement cfg ↔ CfgSound cfg = true := by
   constructor
   · intro h
-    obtain ⟨a, b⟩ := cfg
-    have h1 := h [⟨['T'], false, true, .none, ⟨[], .traps⟩⟩] (by decide) (by decide)
-    have h2 := h [⟨['E'], true, true, .none, ⟨[], .traps⟩⟩] (by decide) (by decide)
-    cases a <;> cases b <;> simp [run, ordered, runAll, runFn, declInfo, obs, abortFAIL] at h1 h2 ⊢
-  · rintro ⟨ht, he⟩ l hg hn
-    apply fail_prints_FAIL_and_nonzero_partial cfg l hg _ hn
+    obtain ⟨a, b, c⟩ := cfg
+    have h1 := (h [] [⟨['T'], false, true, .none, ⟨[], .traps⟩, true⟩] (by decide)).2 (by decide)
+    have h2 := (h [] [⟨['E'], true, true, .none, ⟨[], .traps⟩, true⟩] (by decide)).2 (by decide)
+    have h3 := (h ['x'] witnessInitLeak (by decide)).1.2 (by decide)
+    cases a <;> cases b <;> cases c <;>
+      simp [runList, witnessInitLeak, runAll, runFn, runFnCore, captured, joinOut, declInfo, obs, abortFAIL, CfgSound] at h1 h2 h3 ⊢
+  · intro hs io l hg
+    obtain ⟨a, b, c⟩ := cfg
+    simp [CfgSound] at hs
+    obtain ⟨⟨ha, hb⟩, hc⟩ := hs
+    subst ha; subst hb; subst hc
+    have hl : NoLeak ⟨true, true, false⟩ io := Or.inl rfl
+    refine ⟨pass_iff_all_meet_contract_partial _ io l hg hl, fun hn => ?_⟩
+    apply fail_prints_FAIL_and_nonzero_partial _ io l hg hl _ hn
     intro f _ _ _
-    cases hx : f.isExample <;> simp [abortFAIL, hx, ht, he]
+    cases hx : f.isExample <;> simp [abortFAIL, hx]
+
+/-! ## the suite as written (module state threaded by `resolved`) -/
+
+theorem suite_pass_iff_all_meet_contract_partial (cfg : Cfg) (pkg : Pkg) (sl : List SFn)
+    (hg : ∀ f ∈ resolved pkg sl, f.selected = true → Guarded f = true) (hl : NoLeak cfg pkg.initOut) :
+    (Line.ok ∈ (run cfg (.fns pkg sl)).1 ∧ (run cfg (.fns pkg sl)).2 = 0) ↔ allMeet (resolved pkg sl) :=
+  pass_iff_all_meet_contract_partial cfg pkg.initOut (resolved pkg sl) hg hl
+
+theorem suite_fail_prints_FAIL_and_nonzero (cfg : Cfg) (hs : CfgSound cfg = true) (pkg : Pkg) (sl : List SFn)
+    (hg : ∀ f ∈ resolved pkg sl, f.selected = true → Guarded f = true) (hn : ¬ allMeet (resolved pkg sl)) :
+    Line.fail ∈ (run cfg (.fns pkg sl)).1 ∧ (run cfg (.fns pkg sl)).2 ≠ 0 :=
+  (((guarded_statement_iff_sound cfg).2 hs) pkg.initOut (resolved pkg sl) hg).2 hn
 
 /-! ## the table regenerated from the current source -/
 
-theorem cfgCurrent_flags_checked :
-    (cfgCurrent.testAbortFAIL && cfgCurrent.exampleAbortFAIL) = cfgCurrentAbortFAIL := by decide
+theorem cfgCurrent_sound_checked : CfgSound cfgCurrent = cfgCurrentSound := by decide
 
-theorem current_fail_verdict :
-    (cfgCurrentAbortFAIL = true → GuardedFailStatement cfgCurrent) ∧
-    (cfgCurrentAbortFAIL = false → ¬ GuardedFailStatement cfgCurrent) := by
-  rw [← cfgCurrent_flags_checked, guarded_fail_statement_iff]
+theorem current_verdict :
+    (cfgCurrentSound = true → GuardedStatement cfgCurrent) ∧
+    (cfgCurrentSound = false → ¬ GuardedStatement cfgCurrent) := by
+  rw [← cfgCurrent_sound_checked, guarded_statement_iff_sound]
   constructor
-  · intro h; simpa using h
-  · intro h h'; simp [h'.1, h'.2] at h
+  · intro h; exact h
+  · intro h h'; simp [h'] at h
 
 /-! ## what does not hold: witnesses -/
 
 /-- declared `// Output(panic): boom`, panics with "boomer": passes (prefix match) -/
 def witnessPrefix : List Fn :=
   [⟨['T', 'e', 's', 't', 'B'], false, true, .panic ['b', 'o', 'o', 'm'],
-    ⟨[], .panics ['b', 'o', 'o', 'm', 'e', 'r'] ['a', ':', '1']⟩⟩]
+    ⟨[], .panics ['b', 'o', 'o', 'm', 'e', 'r'] ['a', ':', '1']⟩, true⟩]
 
 /-- declared `// Output:` with no text and prints nothing: meets its contract but FAILs (`expect = "?"`) -/
 def witnessEmptyMeets : List Fn :=
-  [⟨['E', 'x', 'a', 'm', 'p', 'l', 'e', 'E'], true, true, .output [], ⟨[], .returns⟩⟩]
+  [⟨['E', 'x', 'a', 'm', 'p', 'l', 'e', 'E'], true, true, .output [], ⟨[], .returns⟩, true⟩]
 
 /-- declared `// Output:` with no text and prints `?`: passes without meeting its contract -/
 def witnessSentinel : List Fn :=
-  [⟨['E', 'x', 'a', 'm', 'p', 'l', 'e', 'Q'], true, true, .output [], ⟨['?'], .returns⟩⟩]
+  [⟨['E', 'x', 'a', 'm', 'p', 'l', 'e', 'Q'], true, true, .output [], ⟨['?'], .returns⟩, true⟩]
 
 /-- a failing assertion in a plain test -/
 def witnessAbort : List Fn :=
-  [⟨['T', 'e', 's', 't', 'A'], false, true, .none, ⟨[], .assertFails ['x'] ['a', ':', '1']⟩⟩]
+  [⟨['T', 'e', 's', 't', 'A'], false, true, .none, ⟨[], .assertFails ['x'] ['a', ':', '1']⟩, true⟩]
 
 theorem witnessPrefix_passes (cfg : Cfg) :
-    run cfg (.fns witnessPrefix) = ([.ok], 0) ∧ ¬ allMeet witnessPrefix := by
-  obtain ⟨a, b⟩ := cfg
-  cases a <;> cases b <;> decide
+    runList cfg [] witnessPrefix = ([.ok], 0) ∧ ¬ allMeet witnessPrefix := by
+  obtain ⟨a, b, c⟩ := cfg
+  cases a <;> cases b <;> cases c <;> decide
 
 theorem witnessEmptyMeets_fails (cfg : Cfg) :
-    (run cfg (.fns witnessEmptyMeets)).2 = 1 ∧ Line.fail ∈ (run cfg (.fns witnessEmptyMeets)).1 ∧
+    (runList cfg [] witnessEmptyMeets).2 = 1 ∧ Line.fail ∈ (runList cfg [] witnessEmptyMeets).1 ∧
     allMeet witnessEmptyMeets := by
-  obtain ⟨a, b⟩ := cfg
-  cases a <;> cases b <;> decide
+  obtain ⟨a, b, c⟩ := cfg
+  cases a <;> cases b <;> cases c <;> decide
 
 theorem witnessSentinel_passes (cfg : Cfg) :
-    run cfg (.fns witnessSentinel) = ([.ok], 0) ∧ ¬ allMeet witnessSentinel := by
-  obtain ⟨a, b⟩ := cfg
-  cases a <;> cases b <;> decide
+    runList cfg [] witnessSentinel = ([.ok], 0) ∧ ¬ allMeet witnessSentinel := by
+  obtain ⟨a, b, c⟩ := cfg
+  cases a <;> cases b <;> cases c <;> decide
 
 theorem witnessAbort_no_FAIL_pinned :
-    run cfgPinned (.fns witnessAbort) = ([.dump], 1) ∧ ¬ allMeet witnessAbort := by decide
+    runList cfgPinned [] witnessAbort = ([.dump], 1) ∧ ¬ allMeet witnessAbort := by decide
 
-/-- the first sentence is false whatever the early exits print -/
+/-- the first sentence is false whatever the parameters -/
 theorem pass_iff_all_meet_contract_false (cfg : Cfg) : ¬ PassIffStatement cfg := by
   intro h
   have hw := witnessPrefix_passes cfg
-  have := (h witnessPrefix (by decide)).1 (by rw [hw.1]; decide)
+  have := (h [] witnessPrefix (by decide)).1 (by rw [hw.1]; decide)
   exact hw.2 this
 
 /-- … also in the other direction: a suite that meets every contract is reported FAIL -/
 theorem pass_iff_all_meet_contract_false_converse (cfg : Cfg) :
-    ∃ l, (∀ f ∈ l, f.selected = true → WF f = true) ∧ allMeet l ∧ (run cfg (.fns l)).2 ≠ 0 := by
+    ∃ l, (∀ f ∈ l, f.selected = true → WF f = true) ∧ allMeet l ∧ (runList cfg [] l).2 ≠ 0 := by
   refine ⟨witnessEmptyMeets, by decide, (witnessEmptyMeets_fails cfg).2.2, ?_⟩
   rw [(witnessEmptyMeets_fails cfg).1]; decide
 
-/-- the second sentence is false whatever the early exits print (a failing function passes) -/
+/-- the second sentence is false whatever the parameters (a failing function passes) -/
 theorem fail_prints_FAIL_and_nonzero_false (cfg : Cfg) : ¬ FailStatement cfg := by
   intro h
   have hw := witnessPrefix_passes cfg
-  have := (h witnessPrefix (by decide) hw.2).2
+  have := (h [] witnessPrefix (by decide) hw.2).2
   rw [hw.1] at this
   exact this rfl
 
 /-- on the pinned commit it is false even for guarded suites: a failing assertion prints no FAIL -/
-theorem fail_prints_FAIL_false_pinned : ¬ GuardedFailStatement cfgPinned := by
+theorem fail_prints_FAIL_false_pinned : ¬ GuardedStatement cfgPinned := by
   intro h
-  have := (h witnessAbort (by decide) witnessAbort_no_FAIL_pinned.2).1
+  have := ((h [] witnessAbort (by decide)).2 witnessAbort_no_FAIL_pinned.2).1
   rw [witnessAbort_no_FAIL_pinned.1] at this
   simp at this
 
-/-- with the repair the guarded FAIL sentence holds -/
-theorem fail_prints_FAIL_and_nonzero_repaired : GuardedFailStatement cfgRepaired :=
-  (guarded_fail_statement_iff cfgRepaired).2 ⟨rfl, rfl⟩
+/-- with the repair (and the reset in place) the guarded statement holds -/
+theorem guarded_statement_repaired : GuardedStatement cfgRepaired :=
+  (guarded_statement_iff_sound cfgRepaired).2 rfl
 
 /-! ## other suites -/
-theorem no_test_files_status : run cfg .noTestFiles = ([.noTestFiles], 0) := rfl
-theorem load_error_status : (run cfg .loadError).2 = 1 := rfl
+theorem no_test_files_status (cfg : Cfg) : run cfg .noTestFiles = ([.noTestFiles], 0) := rfl
+theorem load_error_status (cfg : Cfg) : (run cfg .loadError).2 = 1 := rfl
 
 end WaVerif.C30
